@@ -17,7 +17,7 @@ def run_case(ctx, n):
   rng = ctx.rng('kind', n)
   if rng.random() < 0.35:
     return direct_case(ctx, n)
-  r = qcheck.run_qcase(ctx, n, ('C23',), spied=(True, False), instrumented=(True, False))
+  r = qcheck.run_qcase(ctx, n, ('C23',), with_queries=n % 2 == 0, spied=(True, False), instrumented=(True, False))
   if r is None:
     return
   res, spec, cfg = r
